@@ -388,7 +388,7 @@ def main():
     emit('#endif', False)
 
     # ---- describe per class
-    desc = [k for k in tins if k.getters]
+    desc = [k for k in tins if k.getters and (k is pdu or pdu in ancestors(k) or (k.name not in NOPRINT and 'TCPIP' not in k.qual and 'Crypto' not in k.qual and 'Utils' not in k.qual))]
     emit('#ifdef VF_GEN_DESCRIBE', False)
     for k in desc:
         q = '::'.join(k.qual)
